@@ -1,5 +1,7 @@
 package fasthttp
 
+import "io/fs"
+
 // C23 — FS never serves a file outside its root.
 //
 // The real FS request handler (path selection, the built-in rewriters, the
@@ -105,4 +107,69 @@ func c23HasDotDot(p []byte) bool {
 		}
 	}
 	return found
+}
+
+// ---- the default (operating-system) file system branch -------------------
+//
+// With FS.FS unset the handler joins Root and the request path itself and
+// opens the result through osFS. os.Open / os.Stat are not interpretable, so
+// under the engine (*osFS).Open and (*osFS).Stat are replaced by harness stubs
+// (//verif:stub) that only record the name and report "does not exist": which
+// names the real path-joining code asks for is what is checked.
+
+var c23OSNames []string
+
+//verif:stub (*github.com/valyala/fasthttp.osFS).Open
+func vstubOSFSOpen(o *osFS, name string) (fs.File, error) {
+	c23OSNames = append(c23OSNames, name)
+	return nil, &fs.PathError{Op: "open", Path: name, Err: fs.ErrNotExist}
+}
+
+//verif:stub (*github.com/valyala/fasthttp.osFS).Stat
+func vstubOSFSStat(o *osFS, name string) (fs.FileInfo, error) {
+	c23OSNames = append(c23OSNames, name)
+	return nil, &fs.PathError{Op: "stat", Path: name, Err: fs.ErrNotExist}
+}
+
+func vhC23OSRoot() {
+	c23OSNames = nil
+	const root = "/srv/r"
+	fsys := &FS{Root: root, AcceptByteRange: true}
+	rewriter := vChoose("rewriter", 4)
+	n := 0
+	if rewriter > 0 {
+		n = vChoose("count", 3)
+	}
+	switch rewriter {
+	case 1:
+		fsys.PathRewrite = NewVHostPathRewriter(n)
+	case 2:
+		fsys.PathRewrite = NewPathSlashesStripper(n)
+	case 3:
+		fsys.PathRewrite = NewPathPrefixStripper(n)
+	}
+	var target []byte
+	switch vChoose("shape", 3) {
+	case 0:
+		target = append([]byte("/"), c05Sym("target", vParam("targetLen", 3))...)
+	case 1: // a prefix the stripper removes, then a short remainder, with or without a trailing slash
+		target = append([]byte("/s/"), c05Sym("target", 2)...)
+	case 2:
+		target = append([]byte("/ab"), c05Sym("target", 2)...)
+	}
+	var req Request
+	req.Header.SetRequestURIBytes(target)
+	req.Header.SetHost("h.co")
+	var ctx RequestCtx
+	ctx.Init(&req, nil, nil)
+	h := fsys.NewRequestHandler()
+	h(&ctx)
+	inside := true
+	for _, name := range c23OSNames {
+		vNote("os " + name)
+		if !vfInside(name, root) {
+			inside = false
+		}
+	}
+	vAssert("only-names-inside-root-reach-the-operating-system", inside)
 }
